@@ -93,18 +93,23 @@ func unpackB4(data byte, b0 *bool, b1 *bool, b2 *bool, b3 *bool) error {
 func packF16(f float32) []byte {
 	buffer := []byte{0, 0, 0}
 
-	if f > 670760.96 {
-		f = 670760.96
-	} else if f < -671088.64 {
-		f = -671088.64
+	// 0x7FFF denotes invalid data and no datapoint type accepts a magnitude beyond 670760, so
+	// saturate at the largest mantissa that stays within that bound (2046 * 2^15 / 100).
+	if f > 670433.28 {
+		f = 670433.28
+	} else if f < -670433.28 {
+		f = -670433.28
 	}
 
-	signedMantissa := int(f * 100)
+	// The product is exact in float64. Round to the nearest representable value instead of
+	// truncating, both here and when reducing the mantissa to its 12 bits.
+	value := int64(math.Round(float64(f) * 100))
+	signedMantissa := value
 	exp := 0
 
 	for signedMantissa > 2047 || signedMantissa < -2048 {
-		signedMantissa /= 2
 		exp++
+		signedMantissa = (value + 1<<(exp-1)) >> exp
 	}
 
 	buffer[1] |= uint8(exp&15) << 3
